@@ -40,10 +40,10 @@ static const char* PKN[] = {"lcc", "albers", "polarstereo"};
 // ------------------------------------------------------------------------------ ellipsoids
 struct EllCfg { double a, f; std::string cls, grp, kind; bool extreme; };
 static EllCfg mk_ell(double a, double f) {
-  EllCfg e; e.a = a; e.f = f; e.extreme = (1 - f) > 3 || (1 - f) < 0.1;
+  EllCfg e; e.a = a; e.f = f; e.extreme = (1 - f) > 3 || (1 - f) < 0.15;
   double af = std::fabs(f);
   e.kind = f == 0 ? "sphere" : (f > 0 ? "oblate" : "prolate");
-  if (e.extreme) { e.cls = f > 0 ? "oblate-extreme(b/a<0.1)" : "prolate-extreme(b/a>3)"; e.grp = "extreme"; }
+  if (e.extreme) { e.cls = f > 0 ? "oblate-extreme(b/a<0.15)" : "prolate-extreme(b/a>3)"; e.grp = "extreme"; }
   else if (f == 0) { e.cls = "sphere"; e.grp = "|f|<=0.011"; }
   else if (af <= 1e-6) { e.cls = e.kind + "-nearly-spherical"; e.grp = "|f|<=0.011"; }
   else if (af <= 0.011) { e.cls = e.kind + "-earthlike"; e.grp = "|f|<=0.011"; }
@@ -64,7 +64,7 @@ static EllCfg gen_ell(vh::Rng& r) {
   case 6: f = r.sign() * r.logu(1e-12, 0.3); break;
   case 7: f = r.uniform(-1, 0.5); break;
   case 8: f = r.uniform(0.003, 0.0036); break;
-  default: f = r.uniform(-2, 0.9); break;       // b/a in [0.1, 3]
+  default: f = r.uniform(-2, 0.85); break;      // b/a in [0.15, 3]
   }
   a = r.coin(0.6) ? r.pick(A_LADDER) : r.logu(0.1, 1e8);
   return mk_ell(a, f);
@@ -212,7 +212,7 @@ static int build(Model& M, PK pk, const EllCfg& e, const ParCfg& par, double k1,
   expect_throw = false;
   // input regimes with a known defect mechanism (decided from the inputs only)
   M.regime.clear(); M.hardregime = false;
-  if (e.extreme) { M.regime = "extreme-eccentricity(b/a<0.1-or->3)"; M.hardregime = true; }
+  if (e.extreme) { M.regime = "extreme-eccentricity(b/a<0.15-or->3)"; M.hardregime = true; }
   else if (pk != P_PS) {
     SC q1 = par.p1(), q2 = par.p2(); bool distinct = !refp::same(q1, q2);
     Q cmin = q1.c < q2.c ? q1.c : q2.c, cmax = q1.c < q2.c ? q2.c : q1.c; (void)cmax;
@@ -589,10 +589,11 @@ static void check_reverse_xy(Ctx& c, const Model& M, double lon0, double x, doub
   double ge = ground_err(M, (double)((Q)x - o.x), (double)((Q)y - o.y), o.k, o.gamma, x, y);
   double tol = M.tolm(); if (M.pk == P_ALB) tol += albers_cond(M, p, x, y);
   // longitude
-  // the longitude difference is formed in degrees before it is reduced: its representation (a few roundings, 8 ulp allowed) is a floor when it wraps
+  // the longitude difference is formed in degrees before it is reduced: its representation (theta/n with its roundings: 32 ulp allowed) is a floor when it wraps
   double lamdeg = std::fabs((double)(lamx / refp::DEGq)), ulplam = std::nextafter(lamdeg, HUGE_VAL) - lamdeg;
-  double dl = std::max(0.0, std::fabs((double)remainderq((Q)lon - ((Q)lon0 + lamx / refp::DEGq), 360)) - (lamdeg > 180 ? 8 * ulplam : 0)) * DEG, gl = (double)M.E.r_par(p) * std::fabs(dl);
+  double dl = std::max(0.0, std::fabs((double)remainderq((Q)lon - ((Q)lon0 + lamx / refp::DEGq), 360)) - (lamdeg > 180 ? 32 * ulplam : 0)) * DEG, gl = (double)M.E.r_par(p) * std::fabs(dl);
   double err = std::hypot(ge, gl);
+  if (c.only) std::fprintf(stderr, "REVXY ge=%.3g gl=%.3g lamdeg=%.17g ulplam=%.3g tol=%.3g k=%.6g\n", ge, gl, lamdeg, ulplam, tol, (double)o.k);
   c.obs(grp + ": REF-Forward(Reverse(x,y)) vs (x,y), ground distance / tolerance", err / tol, wit);
   if (!(err <= tol)) M.viol(c, "oracle", "reverse-xy", cls, J(wit).f("lat", lat).f("lon", lon).f("ref_x_of_result", (double)o.x).f("ref_y_of_result", (double)o.y).f("ground_err_nm_wgs84", M.nm(err)).f("tol_nm_wgs84", M.nm(tol)));
   double ek = (double)(fabsq((Q)k - o.k) / o.k), eg = (double)fabsq(remainderq((Q)g - o.gamma / refp::DEGq, 360)) * DEG;
